@@ -91,8 +91,58 @@ func (P *Program) condFormula(v ssa.Value, depth int) *formula {
 		if f := P.phiFormula(x, depth); f != nil {
 			return f
 		}
+	case *ssa.Call:
+		if f := P.inlineBoolHelper(x, 0, depth); f != nil {
+			return f
+		}
+	case *ssa.Extract:
+		if call, ok := x.Tuple.(*ssa.Call); ok {
+			if f := P.inlineBoolHelper(call, x.Index, depth); f != nil {
+				return f
+			}
+		}
 	}
 	return P.leaf(v)
+}
+
+// inlineBoolHelper: the condition is bool result #k of a non-anchor product helper with a single return statement:
+// it IS the returned expression, evaluated in the calling context of this call (extracting a condition - or a
+// comma-ok lookup - into a helper does not change the literal).
+func (P *Program) inlineBoolHelper(call *ssa.Call, k int, depth int) *formula {
+	callee := call.Call.StaticCallee()
+	if callee == nil || !P.IsProductFunc(callee) || len(callee.Blocks) == 0 || P.isAnchor(callee) || P.inlineBusy[callee] {
+		return nil
+	}
+	res := callee.Signature.Results()
+	if k >= res.Len() {
+		return nil
+	}
+	if b, ok := res.At(k).Type().Underlying().(*types.Basic); !ok || b.Kind() != types.Bool {
+		return nil
+	}
+	var ret *ssa.Return
+	n := 0
+	allInstrs(callee, func(b *ssa.BasicBlock, ins ssa.Instruction) {
+		if r, ok := ins.(*ssa.Return); ok {
+			ret = r
+			n++
+		}
+	})
+	if n != 1 || k >= len(ret.Results) {
+		return nil
+	}
+	rv := ret.Results[k]
+	if _, isC := rv.(*ssa.Const); isC {
+		return nil
+	}
+	if P.inlineBusy == nil {
+		P.inlineBusy = map[*ssa.Function]bool{}
+	}
+	P.inlineBusy[callee] = true
+	defer delete(P.inlineBusy, callee)
+	var f *formula
+	P.PinnedAll(map[*ssa.Function]ssa.CallInstruction{callee: call}, func() { f = P.condFormula(rv, depth+1) })
+	return f
 }
 
 func (P *Program) leaf(v ssa.Value) *formula {
@@ -661,6 +711,12 @@ func (P *Program) Expand(lits []Lit) []Lit {
 
 // BlockCutBy: does every path from entry to b take an edge carrying a literal that satisfies pred?
 func (P *Program) BlockCutBy(b *ssa.BasicBlock, pred func(Lit) bool) bool {
+	return P.BlockCutByOrVia(b, pred, nil)
+}
+
+// BlockCutByOrVia: every path from entry to b takes an edge carrying a literal that satisfies pred, or passes
+// through block via first.
+func (P *Program) BlockCutByOrVia(b *ssa.BasicBlock, pred func(Lit) bool, via *ssa.BasicBlock) bool {
 	fn := b.Parent()
 	g := P.guardsOf(fn)
 	if len(fn.Blocks) == 0 {
@@ -671,6 +727,9 @@ func (P *Program) BlockCutBy(b *ssa.BasicBlock, pred func(Lit) bool) bool {
 	for len(work) > 0 {
 		x := work[len(work)-1]
 		work = work[:len(work)-1]
+		if x == via {
+			continue
+		}
 		if x == b {
 			return false
 		}
